@@ -225,7 +225,7 @@ def step (st : DState) (line : String) : DState × String :=
   | ["codelex", dec, thou, line] =>
     -- the model lexer of the arithmetic / conversion-code alphabet on a whole line
     let cs := (stringOfHex line).toList
-    (st, match (codeLex (stringOfHex dec) (stringOfHex thou) (cs.length + 1) cs : Option (List (Tok Float))) with
+    (st, match (lexLine (stringOfHex dec) (stringOfHex thou) cs : Option (List (Tok Float))) with
       | some ts => "ok\t" ++ " ".intercalate (ts.map encTok)
       | none => "none")
   | ["constdate", lang, word] =>
